@@ -608,15 +608,16 @@ func checkAllocBounds(p *Program, r *Report) {
 				if ev.Kind != "make" {
 					continue
 				}
-				L, _ := ev.Args[0].(*Form)
-				if L == nil {
-					continue
-				}
 				n := ev.CondIdx
 				if n > len(o.St.conds) {
 					n = len(o.St.conds)
 				}
-				facts = append(facts, makeFact{ev.Pos, o.St.resolve(L), o.St.conds[:n], e})
+				for _, a := range ev.Args {
+					// length and capacity are both allocation sizes
+					if L, _ := a.(*Form); L != nil {
+						facts = append(facts, makeFact{ev.Pos, o.St.resolve(L), o.St.conds[:n], e})
+					}
+				}
 			}
 		}
 	}
@@ -662,8 +663,13 @@ func checkAllocBounds(p *Program, r *Report) {
 			}
 		}
 		pos := p.InstrPos(s.In)
-		if _, isC := constInt(s.In.Len); isC {
-			r.Hold("C09.A1", s.Key, pos, "constant length")
+		_, lenConst := constInt(s.In.Len)
+		capConst := s.In.Cap == nil
+		if s.In.Cap != nil {
+			_, capConst = constInt(s.In.Cap)
+		}
+		if lenConst && capConst {
+			r.Hold("C09.A1", s.Key, pos, "constant length and capacity")
 			continue
 		}
 		if len(mine) == 0 {
@@ -1019,6 +1025,14 @@ func checkLoopProgress(p *Program, r *Report) {
 			for b := range body {
 				for _, in := range b.Instrs {
 					if isRead(in) {
+						// the read only bounds the loop if its failure is looked at
+						if c, ok := in.(*ssa.Call); ok {
+							if ei := errIndex(c); ei >= 0 {
+								if uses, _ := resultUses(c, ei); len(uses) == 0 {
+									continue
+								}
+							}
+						}
 						readBlock[b] = true
 					}
 				}
@@ -1045,7 +1059,7 @@ func checkLoopProgress(p *Program, r *Report) {
 			if !readBlock[h] {
 				walk(h)
 			}
-			r.Check(!cycleWithoutRead, "C09.L1", key, pos, "every iteration performs a stream read whose failure (EOF included) leaves the loop: the number of iterations is bounded by the input length", "a cycle of this loop performs no stream read and its bound is declared by the input: a few bytes can make it spin for 2^32 iterations")
+			r.Check(!cycleWithoutRead, "C09.L1", key, pos, "every iteration performs a stream read whose failure (EOF included) leaves the loop: the number of iterations is bounded by the input length", "a cycle of this loop performs no stream read whose error is examined, and its bound is declared by the input: after EOF a few declared bytes make it spin for up to 2^32 iterations")
 		}
 	}
 	// L2: no repositioning of readers anywhere in meta/...
